@@ -31,13 +31,47 @@ impl Ref {
     }
 }
 
+/// one action of an UPDATE
+#[derive(Clone, Debug, PartialEq, Eq)]
+pub enum Act { Name(u32), Attr(u32), UnsetAttr, Facet(u32), UnsetFacet }
+
+impl Act {
+    pub fn tok(&self) -> String {
+        match self { Act::Name(v) => format!("n{v}"), Act::Attr(v) => format!("a{v}"), Act::UnsetAttr => "ua".into(), Act::Facet(v) => format!("f{v}"), Act::UnsetFacet => "uf".into() }
+    }
+    pub fn parse(s: &str) -> Option<Act> {
+        Some(match s {
+            "ua" => Act::UnsetAttr,
+            "uf" => Act::UnsetFacet,
+            _ => match s.chars().next()? {
+                'n' => Act::Name(s[1..].parse().ok()?),
+                'a' => Act::Attr(s[1..].parse().ok()?),
+                'f' => Act::Facet(s[1..].parse().ok()?),
+                _ => Act::Name(s.parse().ok()?),
+            },
+        })
+    }
+    pub fn family(&self) -> &'static str {
+        match self { Act::Name(_) => "set_fields", Act::Attr(_) => "set_attributes", Act::UnsetAttr => "unset_attributes", Act::Facet(_) => "set_facet", Act::UnsetFacet => "unset_facet" }
+    }
+    fn kml(&self) -> String {
+        match self {
+            Act::Name(v) => format!("SET FIELDS {{name: \"n{v}\"}}"),
+            Act::Attr(v) => format!("SET ATTRIBUTES {{note: \"a{v}\"}}"),
+            Act::UnsetAttr => "UNSET ATTRIBUTES {note}".into(),
+            Act::Facet(v) => format!("SET FACET \"MnemonicState\" {{salience: 0.{}}}", (*v).clamp(1, 9)),
+            Act::UnsetFacet => "UNSET FACET \"MnemonicState\" {salience}".into(),
+        }
+    }
+}
+
 #[derive(Clone, Debug, PartialEq, Eq)]
 pub enum Clause {
     Cc { h: u32, ty: u32, key: u32, val: u32, bad: bool },
     Up { h: u32, ty: Option<u32>, key: u32, val: Option<u32>, expect: Option<u64> },
     En { h: Option<u32>, s: Ref, p: u32, o: Ref, expect: Option<u64>, bad: bool },
     Cr { kind: char, h: u32, pay: u32, refs: Vec<Ref>, bad: bool },
-    Ud { t: Ref, val: u32, expect: Option<u64>, bad: bool },
+    Ud { t: Ref, acts: Vec<Act>, expect: Option<u64>, bad: bool },
     Ss { t: Ref, to: char, expect: Option<char> },
     /// PURGE target CONFIRM "PURGE" (`bad`: refused while staged — the target is still referenced)
     Pg { t: Ref, bad: bool },
@@ -71,7 +105,7 @@ impl Clause {
                 let r = if refs.is_empty() { "-".to_string() } else { refs.iter().map(|r| r.tok()).collect::<Vec<_>>().join(",") };
                 format!("cr:{kind}:{h}:{pay}:{r}:{}", *bad as u8)
             }
-            Clause::Ud { t, val, expect, bad } => format!("ud:{}:{val}:{}:{}", t.tok(), opt(expect), *bad as u8),
+            Clause::Ud { t, acts, expect, bad } => format!("ud:{}:{}:{}:{}", t.tok(), acts.iter().map(|a| a.tok()).collect::<Vec<_>>().join(","), opt(expect), *bad as u8),
             Clause::Ss { t, to, expect } => format!("ss:{}:{to}:{}", t.tok(), opt(expect)),
             Clause::Rt { t, expect } => format!("rt:{}:{}", t.tok(), opt(expect)),
             Clause::Pg { t, bad } => format!("pg:{}:{}", t.tok(), *bad as u8),
@@ -89,7 +123,7 @@ impl Clause {
                 let refs = if *refs == "-" { vec![] } else { refs.split(',').map(Ref::parse).collect::<Option<Vec<_>>>()? };
                 Clause::Cr { kind, h: h.parse().ok()?, pay: pay.parse().ok()?, refs, bad: pbool(bad)? }
             }
-            ["ud", t, val, ex, bad] => Clause::Ud { t: Ref::parse(t)?, val: val.parse().ok()?, expect: popt(ex)?, bad: pbool(bad)? },
+            ["ud", t, acts, ex, bad] => Clause::Ud { t: Ref::parse(t)?, acts: acts.split(',').map(Act::parse).collect::<Option<Vec<_>>>()?, expect: popt(ex)?, bad: pbool(bad)? },
             ["pg", t, bad] => Clause::Pg { t: Ref::parse(t)?, bad: pbool(bad)? },
             ["rt", t, ex] => {
                 let expect: Option<u8> = popt(ex)?;
@@ -217,10 +251,11 @@ pub fn render(st: &Stmt) -> (String, BTreeMap<String, String>) {
                 let st = if outs.is_empty() { String::new() } else { format!(" SET STRUCTURAL {{{outs} }}") };
                 format!("CREATE ACTIVITY ?h{h} {{ SET FIELDS {{{class}parameters_digest: \"p{pay}\"}}{st} }}")
             }
-            Clause::Ud { t, val, expect, bad } => {
+            Clause::Ud { t, acts, expect, bad } => {
                 let e = expect.map(|v| format!(" EXPECT VERSION {v}")).unwrap_or_default();
-                let set = if *bad { "SET FIELDS {key: \"moved\"}".to_string() } else { format!("SET FIELDS {{name: \"n{val}\"}}") };
-                format!("UPDATE {}{e} {set}", r(t, &mut params))
+                let mut set: Vec<String> = acts.iter().map(|a| a.kml()).collect();
+                if *bad { set.insert(0, "SET FIELDS {key: \"moved\"}".to_string()); }
+                format!("UPDATE {}{e} {}", r(t, &mut params), set.join(" "))
             }
             Clause::Pg { t, bad: _ } => format!("PURGE {} CONFIRM \"PURGE\"", r(t, &mut params)),
             Clause::Rt { t, expect } => {
@@ -257,6 +292,23 @@ pub struct Known {
     pub pending: Vec<String>,
     /// every non-shell element: (id, version, some other row refers to it)
     pub all: Vec<(String, u64, bool)>,
+}
+
+/// the actions of one UPDATE: one family alone (often Facet-only: the decay sweep), or a mix
+fn gen_acts(r: &mut Rng) -> Vec<Act> {
+    let one = |r: &mut Rng| match r.below(9) {
+        0 | 1 => Act::Name(1 + r.below(6) as u32),
+        2 | 3 => Act::Attr(1 + r.below(5) as u32),
+        4 => Act::UnsetAttr,
+        5 | 6 | 7 => Act::Facet(1 + r.below(9) as u32),
+        _ => Act::UnsetFacet,
+    };
+    match r.below(10) {
+        0..=3 => vec![if r.chance(4, 5) { Act::Facet(1 + r.below(9) as u32) } else { Act::UnsetFacet }],
+        4..=6 => vec![one(r)],
+        7..=8 => vec![one(r), one(r)],
+        _ => vec![one(r), one(r), one(r)],
+    }
 }
 
 pub fn gen_stmt(r: &mut Rng, known: &Known) -> Stmt {
@@ -355,7 +407,7 @@ pub fn gen_stmt(r: &mut Rng, known: &Known) -> Stmt {
                     Some((t, _)) => {
                         let cur = if let Ref::Id(i) = &t { known.concepts.iter().find(|k| &k.0 == i).map(|k| k.2) } else { None };
                         let expect = if want_bad && r.chance(1, 2) { Some(9) } else if r.chance(1, 4) { Some(cur.unwrap_or(1)) } else { None };
-                        Clause::Ud { t, val: 1 + r.below(6) as u32, expect, bad: want_bad && expect != Some(9) }
+                        Clause::Ud { t, acts: gen_acts(r), expect, bad: want_bad && expect != Some(9) }
                     }
                     None => { let h = next_h; next_h += 1; hs.push((h, 'C', 2)); Clause::Cc { h, ty: 2, key: 0, val: 1 + r.below(6) as u32, bad: want_bad } }
                 }
